@@ -25,9 +25,9 @@ from pyglove.ext import evolution as evo  # pylint: disable=g-import-not-at-top
 from pgverif.monitors import tallygen  # pylint: disable=g-import-not-at-top
 
 TIERS = {
-    'quick': dict(shards=8, cases=80, window_cases=60, free_every=8, replay_every=20,
+    'quick': dict(shards=8, cases=80, window_cases=40, free_every=8, replay_every=20,
                   watchdog_s=60, timeout_s=600),
-    'thorough': dict(shards=16, cases=1200, window_cases=1500, free_every=10,
+    'thorough': dict(shards=16, cases=1200, window_cases=300, free_every=10,
                      replay_every=50, watchdog_s=60, timeout_s=4500, case_timeout_s=300),
 }
 LEVEL = 'exploration'
